@@ -142,6 +142,11 @@ skip_object(const uint8_t * buf, const uint8_t * end)
 
 	/* Skip entries until we get to the end. */
 	do {
+		/* Skip optional whitespace; a name should come next. */
+		buf = skip_ws(buf, end);
+		if (buf == end)
+			return (end);
+
 		/* Skip a string and optional whitespace. */
 		buf = skip_string(buf, end);
 		buf = skip_ws(buf, end);
